@@ -230,9 +230,11 @@ def main(pid, tier, chk):
                 (harness_err if r1.get("harness") else viol).append(("dry run of workload %d" % w, r1["violations"], Case(w, [workloads[w]], [None])))
                 continue
             if r1["shape"] != r2["shape"]:
-                # crash points of this workload would not replay: leave it out (reported in the evidence)
+                # SQLite occasionally issues a couple of extra page writes (about one fault-free run in ten to
+                # twenty of a long workload): the k-th call is then not the same logical point in every run.
+                # Harmless for the verdict - the oracle compares acknowledgements with the reopened file wherever
+                # the kill landed - but a replay of such a workload may need several attempts; counted here.
                 unstable.append(w)
-                continue
             dry[w] = r1["counts"]
             for s in SYSCALLS:
                 for k in range(1, r1["counts"][s] + 1):
@@ -292,7 +294,7 @@ def main(pid, tier, chk):
                 "evaluations": landed, "distinct_nontrivial": len(distinct),
                 "rule": meta["rule"], "samples": samples or [{"note": "no sample"}],
                 "workloads": n_workloads, "workloads_with_every_crash_point_enumerated": len(dry),
-                "workloads_skipped_because_their_syscall_sequence_was_not_stable": len(unstable),
+                "workloads_whose_two_fault_free_runs_differed_in_their_syscall_sequence": len(unstable),
                 "crash_points_enumerated": kill_cases, "disk_error_cases": err_samples, "chained_generation_cases": chain_samples,
                 "cases_where_the_fault_landed": landed, "faults_fired": fired,
                 "syscalls_per_workload": {str(w): dry[w] for w in sorted(dry)[:5]},
@@ -324,8 +326,8 @@ def main(pid, tier, chk):
             for what, vs, _ in harness_err[:3]:
                 print("check: harness trouble: %s %s" % (what, vs), file=sys.stderr)
             return 2
-        if landed == 0 or len(unstable) > n_workloads // 2:
-            chk.die("no injected fault landed, or most workloads have an unstable system-call sequence (%d of %d)" % (len(unstable), n_workloads))
+        if landed == 0:
+            chk.die("no injected fault landed")
         print("check: %s held on %d fault runs (%d workloads, every one of %d file-system calls used as a kill point, %d disk-error and %d chained cases; %.1fs)" % (
             pid, landed, len(dry), kill_cases, err_samples, chain_samples, wall))
         return 0
@@ -337,12 +339,15 @@ def replay(path, chk):
         child = sc.build_bin("./crashchild", "crashchild")
         workdir = os.path.join(sc.dir, "runs")
         os.makedirs(workdir)
-        r = execute_case(child, workdir, Case(0, rf["generations"], rf["injects"]))
-        if not r["landed"]:
+        landed_once = False
+        for attempt in range(6):  # the system-call sequence of a workload is identical in most, not all, runs
+            r = execute_case(child, workdir, Case(0, rf["generations"], rf["injects"]))
+            landed_once = landed_once or r["landed"]
+            if r["landed"] and r["violations"]:
+                print("VIOLATION property=C14 replay=%s (attempt %d)\n  %s" % (path, attempt + 1, "\n  ".join(r["violations"][:4])))
+                return 1
+        if not landed_once:
             print("REPLAY-DIVERGED property=C14: the injected fault did not land (the workload's system-call sequence changed)")
             return 2
-        if r["violations"]:
-            print("VIOLATION property=C14 replay=%s\n  %s" % (path, "\n  ".join(r["violations"][:4])))
-            return 1
         print("REPLAY-OK property=C14: the recorded violation does not occur on this tree")
         return 0
